@@ -62,7 +62,8 @@ pub enum Op {
     /// nested: operations run from inside the closure on attempts 1..=nested_until (re-entrancy)
     Rcu { c: usize, h: usize, #[serde(default)] panic_at: u32, #[serde(default)] pd: bool, #[serde(default)] nested: Vec<Op>, #[serde(default)] nested_until: u32 },
     IntoInnerC { c: usize, h: usize },
-    DropC { c: usize },
+    /// unwinding: the container is dropped by the unwinding of a panic in its owner's frame (std::thread::panicking() is true)
+    DropC { c: usize, #[serde(default)] unwinding: bool },
     /// m: a mapped cache (Cache::map with a projection) instead of a plain one
     CacheNew { x: usize, c: usize, #[serde(default)] m: bool },
     CacheLoad { x: usize },
@@ -717,12 +718,20 @@ where
                 }
             }
         }
-        Op::DropC { c } => {
+        Op::DropC { c, unwinding } => {
             let Some(cont) = take(&mut wl(w).conts, *c) else { return };
             inv("drop_c", *c as i64, 0, 0, 0);
             match Arc::try_unwrap(cont) {
                 Ok(cs) => {
-                    drop(cs);
+                    if *unwinding {
+                        // the frame that owns the container panics: the container is dropped while the thread is panicking
+                        let _ = catch_unwind(AssertUnwindSafe(move || {
+                            let _owned = cs;
+                            std::panic::resume_unwind(Box::new("asv: owner of the container panics"));
+                        }));
+                    } else {
+                        drop(cs);
+                    }
                     ret("drop_c", *c as i64, 0, 0, 0);
                 }
                 Err(cont) => {
@@ -931,7 +940,7 @@ where
         run_op(ctx, &Op::DropG { g });
     }
     for c in 0..nc {
-        run_op(ctx, &Op::DropC { c });
+        run_op(ctx, &Op::DropC { c, unwinding: false });
     }
     for h in 0..nh {
         run_op(ctx, &Op::DropH { h });
